@@ -16,15 +16,18 @@ RULE = ("correspondence: random combinator terms (depth <= 4, curated puzzle ter
         "follow-compatible suffix and a prefix offset) against the independent canonical form (rooms sorted by least cell, cells "
         "row-major, values carried with their rooms).  A case is non-trivial when it is a distinct (kind, term, size, value/text).")
 TRUSTED = [
-    "CPython str/int()/str.isdigit/hex/re semantics on Latin-1 text as transcribed in Codec/Comb.v (py_int, isdigit_c, url regex reading); validated against the interpreter on every run (kinds 'int', 'isdigit', 'url')",
-    "reading of the property: 'accepts' = serialization succeeds on a value of the combinator's documented shape (Seq: list of exactly n items, Grid: exactly h rows of w, Tupl: per-element lists consumed completely, Rooms: partition of the board into orthogonally connected non-empty rooms)",
-    "well-formedness (Codec/CombWf.v wf): OneOf alternatives non-nullable with pairwise disjoint first-character sets; Tupl/Seq/Grid: continuation set of an element disjoint from the first set of every later element",
+    "CPython str/int()/str.isdigit/hex/re semantics on Latin-1 text as transcribed in Codec/Comb.v (py_int, isdigit_c, url regex reading); validated against the interpreter on every run (kinds 'int', 'isdigit', 'get_puzzle_info_from_url', 'deserialize_problem_as_url')",
+    "reading of the property: 'accepts' (CombWf.accepts/exact/consumed_all) = serialization succeeds on a value of the combinator's documented shape (Seq: list of exactly n items, Grid: exactly h rows of w, Tupl: per-element lists consumed completely and without a padded MultiDigit group, Rooms: partition of the board into orthogonally connected non-empty rooms); lenient inputs the serializer also tolerates (over-long lists, ragged rows, extra rows) are outside the domain",
+    "well-formedness (CombWf.wf): OneOf alternatives strict, non-nullable, pairwise disjoint first-character sets; Tupl/Seq/Grid/ValuedRooms: continuation set of an element disjoint from the first set of every later element (DecInt must be followed by a non-digit); Rooms/ValuedRooms are not allowed as OneOf alternatives",
+    "ValuedRooms with rooms/cells in arbitrary order and 'every valid partition serializes' are established by the correspondence + search (all partitions of boards with <= 6 cells in all orders, random up to 6x6, big boards), not by a Coq theorem (statements kept as rooms_roundtrip_statement / valued_rooms_roundtrip_statement in Codec/CombRoundTrip.v); Rooms in arbitrary order and both combinators on canonical order are Coq theorems",
 ]
 ASSUMPTIONS = [
     "value universe: int, str (Latin-1), None, list, tuple; bool/float/other objects are outside the model",
     "text is Latin-1 (code points 0..255); characters above U+00FF are outside the model",
-    "non-termination of the Python loops (Seq over a base that consumes nothing) is reported by the model as OtherError and excluded from the tie",
-    "sorted()/min() on ill-typed room lists: the model uses a stable insertion sort; which comparisons CPython's sort performs on incomparable data is not modelled (such inputs are excluded from the tie when they have >= 3 rooms)",
+    "0 <= idx <= len(data) for serialize/deserialize (all internal calls satisfy it)",
+    "non-termination of the Python loops (Seq/Grid/ValuedRooms over a base that consumes no item, e.g. FixStr) is reported by the model as OtherError; such terms are excluded from search and the tie runs them under a 1 s alarm",
+    "sorted(key=min)/min() on ill-typed room lists: the model uses a stable insertion sort; which comparisons CPython's sort performs on incomparable data is not modelled (such inputs are excluded from the tie when they have >= 3 rooms)",
+    "board height and width >= 1 in the theorems (the model and the tie also cover 0 and mismatching sizes)",
 ]
 
 ERR = {1: "IndexError", 2: "KeyError", 3: "AssertionError", 4: "TypeError", 5: "ValueError",
